@@ -53,6 +53,11 @@ def _impl_unobjid(vs, as_str):
     else:
         a = np.array([v - 2**64 if v >= 2**63 else v for v in vs], dtype=np.int64)
     u = unwrap_objid(a)
+    if not as_str:
+        # the same array object unpacked a second time (a function that consumes its argument in place shows here)
+        u2 = unwrap_objid(a)
+        if any(list(u[f]) != list(u2[f]) for f in u.dtype.names):
+            return [['second-call-differs']] * len(vs)
     return [[int(u.skyversion[i]), int(u.rerun[i]), int(u.run[i]), int(u.camcol[i]), int(u.firstfield[i]),
              int(u.frame[i]), int(u['id'][i])] for i in range(len(vs))]
 
@@ -81,6 +86,9 @@ def _impl_unspec(vs, as_str):
     a = np.array([str(v) for v in vs]) if as_str else np.array(vs, dtype=np.uint64)
     u = unwrap_specobjid(a)
     ui = unwrap_specobjid(a, run2d_integer=True, specLineIndex=True)
+    u2 = unwrap_specobjid(a)
+    if any(list(u[f]) != list(u2[f]) for f in u.dtype.names):
+        return [{'f': ['second-call-differs'], 's': '', 'index': -1}] * len(vs)
     out = []
     for i in range(len(vs)):
         out.append({'f': [int(u.plate[i]), int(u.fiber[i]), int(u.mjd[i]), int(ui.run2d[i]), int(u.line[i])],
